@@ -9,7 +9,7 @@ from ..gen import J, JI
 from . import lincommon as lc
 
 PROP = "C20"
-MONITORS = ("WF",)
+MONITORS = ("WF", "FORM")
 HOSTILE = ('special',)
 ANCHORS = [("experimental/truncated_measure.py", "TruncatedGaussianMeasure.__call__"),
            ("experimental/truncated_measure.py", "TruncatedGaussianMeasure._expectation_integral"),
